@@ -82,6 +82,25 @@ pub fn take_panics() -> Vec<PanicRec> {
 
 /// normalises a panic message so that it is stable across seeds (digits, paths, quoted text)
 pub fn normalise_msg(m: &str) -> String {
+    // quoted data (file names, characters) varies from case to case
+    let mut stripped = String::new();
+    let mut in_bt = false;
+    let mut in_sq = false;
+    for ch in m.chars() {
+        match ch {
+            '`' if !in_sq => {
+                in_bt = !in_bt;
+                stripped.push('`');
+            }
+            '\'' if !in_bt => {
+                in_sq = !in_sq;
+                stripped.push('\'');
+            }
+            _ if in_bt || in_sq => {}
+            _ => stripped.push(ch),
+        }
+    }
+    let m = stripped.as_str();
     let mut out = String::new();
     let mut last_hash = false;
     for ch in m.chars().take(160) {
